@@ -180,9 +180,10 @@ Fixpoint from_str_loop (fuel : nat) (rem : bytes) (b : builder) : res name_err n
 
 Definition name_from_str (s : bytes) : res name_err name :=
   match s with
-  | [] => Err StrEmpty
-  | [46%N] => Ok root_name                                                 (* Name::root().to_owned() *)
-  | _ => from_str_loop (S (length s)) s builder_new
+  | [] => Err StrEmpty                                                     (* s.is_empty() *)
+  | c :: r =>
+    if (c =? 46)%N && is_nil r then Ok root_name                           (* s == "." : Name::root().to_owned() *)
+    else from_str_loop (S (length s)) s builder_new
   end.
 
 (* ---- Label: TryFrom<&[u8]>, PartialEq, Ord, Hash (label.rs) -------------------------------- *)
